@@ -41,16 +41,18 @@ structure Cfg where
   itemSelfCheck : Bool
   /-- 09c40bc: `group_layers` validates before moving -/
   groupLayersPrecheck : Bool
-  /-- b02ee71: `_invalidate_bbox` climbs to the document -/
+  /-- 6b2ac1c: `_invalidate_bbox` climbs to the document -/
   climbToDoc : Bool
-  /-- d6634aa: structural edits invalidate cached boxes -/
+  /-- 52bed49: structural edits invalidate cached boxes -/
   invalidateOnEdit : Bool
-  /-- 52e8bf8: the `visible` setter of a group invalidates the groups below -/
+  /-- 29b367a: the `visible` setter of a group invalidates the groups below -/
   invalidateBelow : Bool
+  /-- 14de9fd: `group_layers` takes the first layer's parent only when the layer is listed there -/
+  listedParentOnly : Bool
   deriving DecidableEq, Repr
 
-def Cfg.current : Cfg := ⟨true, true, true, true, true⟩
-def Cfg.legacy : Cfg := ⟨false, false, false, false, false⟩
+def Cfg.current : Cfg := ⟨true, true, true, true, true, true⟩
+def Cfg.legacy : Cfg := ⟨false, false, false, false, false, false⟩
 
 structure State where
   /-- ids `< next` are live objects; `next` is the id of the next object created -/
@@ -214,21 +216,25 @@ def extractBbox (s : State) (g : Id) : Except Err BBox := extF s s.limit g
 
 def clearCache (s : State) (x : Id) : State := { s with cache := upd s.cache x none }
 
-/-- `_invalidate_bbox`; the `Bool` is `false` when the climb ran out of recursion budget
-(the caches cleared so far stay cleared). -/
-def invUpF (cfg : Cfg) : Nat → State → Id → State × Bool
-  | 0, s, _ => (s, false)
-  | f + 1, s, x =>
-    if s.kind x = .doc then (clearCache s x, true)
+/-- `_invalidate_bbox`: a loop over the parent pointers that stops at a node seen before
+(removed layers keep their parent pointer, so the chain may be circular). The counter only
+makes the definition structural: a chain of distinct live ids is shorter than `next + 1`.
+(The snapshot's version was recursive and stopped below the document; its RecursionError on a
+circular chain is not modelled.) -/
+def invUpF (cfg : Cfg) : Nat → List Id → State → Id → State
+  | 0, _, s, _ => s
+  | f + 1, seen, s, x =>
+    if x ∈ seen then s
+    else if s.kind x = .doc then clearCache s x
     else
       let s1 := if s.cont x then clearCache s x else s
       match s.parent x with
-      | none => (s1, true)
+      | none => s1
       | some p =>
-        if !s.cont p || (s.kind p == .doc && !cfg.climbToDoc) then (s1, true)
-        else invUpF cfg f s1 p
+        if !s.cont p || (s.kind p == .doc && !cfg.climbToDoc) then s1
+        else invUpF cfg f (x :: seen) s1 p
 
-def invUp (cfg : Cfg) (s : State) (x : Id) : State × Bool := invUpF cfg s.limit s x
+def invUp (cfg : Cfg) (s : State) (x : Id) : State := invUpF cfg (s.next + 1) [] s x
 
 def markDirty (s : State) (g : Id) : State :=
   match s.docOf g with
@@ -236,9 +242,9 @@ def markDirty (s : State) (g : Id) : State :=
   | none => s
 
 /-- `_update_psd_record` -/
-def updateRecord (cfg : Cfg) (s : State) (g : Id) : State × Bool :=
+def updateRecord (cfg : Cfg) (s : State) (g : Id) : State :=
   let s1 := markDirty s g
-  if cfg.invalidateOnEdit then invUp cfg s1 g else (s1, true)
+  if cfg.invalidateOnEdit then invUp cfg s1 g else s1
 
 def setPsdAll (s : State) (ds : List Id) (d : Id) : State :=
   { s with psd := fun y => if y ∈ ds then some d else s.psd y }
@@ -260,21 +266,118 @@ def metadata (cfg : Cfg) (s : State) (g : Id) : State × Bool :=
     let s2 := if cfg.invalidateOnEdit then clearConts s1 ds else s1
     (setParentAll s2 (s.children g) g, true)
 
-/-- the loop of `_check_valid_layers`; `none` = accepted -/
-def checkValid (cfg : Cfg) (s : State) (g : Id) : List Id → Option Err
+/-- the loop of `_check_valid_layers`; `none` = accepted, otherwise the exception together with
+the objects whose `repr` the assertion message formats (`repr` of a group reads its `bbox`). -/
+def checkValid (cfg : Cfg) (s : State) (g : Id) : List Id → Option (Err × List Id)
   | [] => none
   | x :: xs =>
-    if !s.isLayer x then some .assertionError
-    else if cfg.itemSelfCheck && x == g then some .assertionError
+    if !s.isLayer x then some (.assertionError, [])
+    else if cfg.itemSelfCheck && x == g then some (.assertionError, [g])
     else if s.cont x then
       match desc s x with
-      | .error e => some e
-      | .ok ds => if g ∈ ds then some .assertionError else checkValid cfg s g xs
+      | .error e => some (e, [])
+      | .ok ds => if g ∈ ds then some (.assertionError, [g, x]) else checkValid cfg s g xs
     else checkValid cfg s g xs
 
 /-- `_check_valid_layers(x)` for a single layer: `layers is not self` comes first -/
-def checkSingle (cfg : Cfg) (s : State) (g x : Id) : Option Err :=
-  if x = g then some .assertionError else checkValid cfg s g [x]
+def checkSingle (cfg : Cfg) (s : State) (g x : Id) : Option (Err × List Id) :=
+  if x = g then some (.assertionError, [g]) else checkValid cfg s g [x]
+
+/-! ### Observations -/
+
+inductive Obs where
+  | bbox (x : Id)
+  | size (x : Id)
+  | repr (x : Id)
+  | descendants (g : Id)
+  | len (g : Id)
+  | index (g x : Id)
+  | count (g x : Id)
+  | getitem (g : Id) (i : Int)
+  | contains (g x : Id)
+  | isVisible (x : Id)
+  /-- an opaque read-only call (composite, numpy, topil …) that read `bbox` of these nodes -/
+  | touch (xs : List Id)
+  deriving DecidableEq, Repr
+
+/-- `GroupMixin.bbox` / `Artboard.bbox`: the raw cached value -/
+def readCache (s : State) (x : Id) : State × Except Err BBox :=
+  match s.cache x with
+  | some b => (s, .ok b)
+  | none =>
+    if s.kind x = .artboard then ({ s with cache := upd s.cache x (some (s.box x)) }, .ok (s.box x))
+    else
+      match extractBbox s x with
+      | .error e => (s, .error e)
+      | .ok b => ({ s with cache := upd s.cache x (some b) }, .ok b)
+
+/-- `x.bbox` -/
+def obsBbox (s : State) (x : Id) : State × Except Err BBox :=
+  if !s.cont x then (s, .ok (s.box x))
+  else
+    match readCache s x with
+    | (s1, .error e) => (s1, .error e)
+    | (s1, .ok b) => (s1, .ok (if s.kind x = .doc ∧ b = BBox.zero then s.box x else b))
+
+/-- `repr(x)` for each of the objects (`Layer.__repr__` reads `width`, hence `bbox`) -/
+def reprAll : State → List Id → State × Option Err
+  | s, [] => (s, none)
+  | s, x :: xs =>
+    if s.kind x = .doc then reprAll s xs
+    else
+      match obsBbox s x with
+      | (s1, .error e) => (s1, some e)
+      | (s1, .ok _) => reprAll s1 xs
+
+/-- the exception of a refused operation; formatting its message may fill caches -/
+def refuse (s : State) (r : Err × List Id) : State × Out :=
+  match reprAll s r.2 with
+  | (s1, none) => (s1, .error r.1)
+  | (s1, some e) => (s1, .error e)
+
+def touchAll : State → List Id → State × Out
+  | s, [] => (s, .none)
+  | s, x :: xs =>
+    match obsBbox s x with
+    | (s1, .error e) => (s1, .error e)
+    | (s1, .ok _) => touchAll s1 xs
+
+def observe (s : State) : Obs → State × Out
+  | .bbox x =>
+    match obsBbox s x with
+    | (s1, .error e) => (s1, .error e)
+    | (s1, .ok b) => (s1, .box b)
+  | .size x =>
+    if s.kind x = .doc then (s, .pair ((s.box x).r - (s.box x).l) ((s.box x).b - (s.box x).t))
+    else
+      match obsBbox s x with
+      | (s1, .error e) => (s1, .error e)
+      | (s1, .ok b) => (s1, .pair (b.r - b.l) (b.b - b.t))
+  | .repr x =>
+    if s.kind x = .doc then (s, .none)
+    else
+      match obsBbox s x with
+      | (s1, .error e) => (s1, .error e)
+      | (s1, .ok _) => (s1, .none)
+  | .descendants g =>
+    match desc s g with
+    | .error e => (s, .error e)
+    | .ok ds => (s, .ids ds)
+  | .len g => (s, .int (s.children g).length)
+  | .index g x => if x ∈ s.children g then (s, .int ((s.children g).idxOf x)) else refuse s (.valueError, [x])
+  | .count g x => (s, .int ((s.children g).count x))
+  | .getitem g i =>
+    match normIdx (s.children g).length i with
+    | none => (s, .error .indexError)
+    | some j => match (s.children g)[j]? with
+      | none => (s, .error .indexError)
+      | some x => (s, .id x)
+  | .contains g x => (s, .bool (decide (x ∈ s.children g)))
+  | .isVisible x =>
+    match isVis s x with
+    | .error e => (s, .error e)
+    | .ok v => (s, .bool v)
+  | .touch xs => touchAll s xs
 
 /-! ### The mutators of `GroupMixin` -/
 
@@ -284,14 +387,11 @@ def setChildren (s : State) (g : Id) (l : List Id) : State := { s with children 
 def finishInsert (cfg : Cfg) (s : State) (g : Id) (out : Out) : State × Out :=
   match metadata cfg s g with
   | (s2, false) => (s2, .error .recursionError)
-  | (s2, true) =>
-    match updateRecord cfg s2 g with
-    | (s3, false) => (s3, .error .recursionError)
-    | (s3, true) => (s3, out)
+  | (s2, true) => (updateRecord cfg s2 g, out)
 
 def opExtend (cfg : Cfg) (s : State) (g : Id) (xs : List Id) : State × Out :=
   match checkValid cfg s g xs with
-  | some e => (s, .error e)
+  | some r => refuse s r
   | none => finishInsert cfg (setChildren s g (s.children g ++ xs)) g .none
 
 def opAppend (cfg : Cfg) (s : State) (g x : Id) : State × Out :=
@@ -299,14 +399,14 @@ def opAppend (cfg : Cfg) (s : State) (g x : Id) : State × Out :=
 
 def opInsert (cfg : Cfg) (s : State) (g : Id) (i : Int) (x : Id) : State × Out :=
   match checkSingle cfg s g x with
-  | some e => (s, .error e)
+  | some r => refuse s r
   | none =>
     let l := s.children g
     finishInsert cfg (setChildren s g (insertAt l (clampIdx l.length i) x)) g .none
 
 def opSetitem (cfg : Cfg) (s : State) (g : Id) (i : Int) (x : Id) : State × Out :=
   match checkSingle cfg s g x with
-  | some e => (s, .error e)
+  | some r => refuse s r
   | none =>
     let l := s.children g
     match normIdx l.length i with
@@ -315,16 +415,14 @@ def opSetitem (cfg : Cfg) (s : State) (g : Id) (i : Int) (x : Id) : State × Out
 
 def opSetslice (cfg : Cfg) (s : State) (g : Id) (a b : Option Int) (xs : List Id) : State × Out :=
   match checkValid cfg s g xs with
-  | some e => (s, .error e)
+  | some r => refuse s r
   | none =>
     let l := s.children g
     let (lo, hi) := sliceBounds l.length a b
     finishInsert cfg (setChildren s g (sliceAssign l lo hi xs)) g .none
 
 def finishRemove (cfg : Cfg) (s : State) (g : Id) (out : Out) : State × Out :=
-  match updateRecord cfg s g with
-  | (s1, false) => (s1, .error .recursionError)
-  | (s1, true) => (s1, out)
+  (updateRecord cfg s g, out)
 
 def opRemove (cfg : Cfg) (s : State) (g x : Id) : State × Out :=
   if x ∈ s.children g then finishRemove cfg (setChildren s g ((s.children g).erase x)) g (.id g)
@@ -344,21 +442,17 @@ def opClear (cfg : Cfg) (s : State) (g : Id) : State × Out :=
 
 /-- `__delitem__`: the dirty flag (and the invalidation) come FIRST, then the list operation -/
 def opDelitem (cfg : Cfg) (s : State) (g : Id) (i : Int) : State × Out :=
-  match updateRecord cfg s g with
-  | (s1, false) => (s1, .error .recursionError)
-  | (s1, true) =>
-    let l := s1.children g
-    match normIdx l.length i with
-    | none => (s1, .error .indexError)
-    | some j => (setChildren s1 g (l.eraseIdx j), .none)
+  let s1 := updateRecord cfg s g
+  let l := s1.children g
+  match normIdx l.length i with
+  | none => (s1, .error .indexError)
+  | some j => (setChildren s1 g (l.eraseIdx j), .none)
 
 def opDelslice (cfg : Cfg) (s : State) (g : Id) (a b : Option Int) : State × Out :=
-  match updateRecord cfg s g with
-  | (s1, false) => (s1, .error .recursionError)
-  | (s1, true) =>
-    let l := s1.children g
-    let (lo, hi) := sliceBounds l.length a b
-    (setChildren s1 g (sliceAssign l lo hi []), .none)
+  let s1 := updateRecord cfg s g
+  let l := s1.children g
+  let (lo, hi) := sliceBounds l.length a b
+  (setChildren s1 g (sliceAssign l lo hi []), .none)
 
 /-! ### The operations of `Layer` -/
 
@@ -374,7 +468,7 @@ def opMoveToGroup (cfg : Cfg) (s : State) (x g : Id) : State × Out :=
     match (if s.cont x then desc s x else .ok []) with
     | .error e => (s, .error e)
     | .ok ds =>
-      if g ∈ ds then (s, .error .assertionError)
+      if g ∈ ds then refuse s (.assertionError, [x, g])
       else
         let r1 := match s.parent x with
           | some p => if s.cont p then detach cfg s x p else (s, .none)
@@ -384,13 +478,19 @@ def opMoveToGroup (cfg : Cfg) (s : State) (x g : Id) : State × Out :=
           let r2 := opAppend cfg r1.1 g x
           if r2.2.isError then r2 else (r2.1, .id x)
 
+/-- `logger.warning("Cannot delete layer {} …".format(self))`: the message is formatted eagerly -/
+def warnRepr (s : State) (x : Id) : State × Out :=
+  match reprAll s [x] with
+  | (s1, none) => (s1, .id x)
+  | (s1, some e) => (s1, .error e)
+
 def opDeleteLayer (cfg : Cfg) (s : State) (x : Id) : State × Out :=
   if !s.isLayer x then (s, .error .other)
   else
     match s.parent x with
-    | none => (s, .id x)
+    | none => warnRepr s x
     | some p =>
-      if !s.cont p then (s, .id x)
+      if !s.cont p then warnRepr s x
       else
         let r1 := detach cfg s x p
         if r1.2.isError then r1
@@ -413,7 +513,7 @@ def opMoveUp (cfg : Cfg) (s : State) (x : Id) (k : Int) : State × Out :=
           else
             let r2 := opInsert cfg r1.1 p n' x
             if r2.2.isError then r2 else (r2.1, .id x)
-        else (s, .error .valueError)
+        else refuse s (.valueError, [x])   -- `list.index`: "<repr> is not in list"
 
 /-! ### Object creation -/
 
@@ -458,17 +558,17 @@ def opGroupLayers (cfg : Cfg) (s : State) (xs : List Id) (parent : Option Id) : 
       let par : Option Id := match parent with
         | some p => some p
         | none => match s.parent x0 with
-          | some p => if s.cont p then some p else none
+          | some p => if s.cont p && (!cfg.listedParentOnly || decide (x0 ∈ s.children p)) then some p else none
           | none => none
-      let pre : Option Err :=
+      let pre : Option (Err × List Id) :=
         if cfg.groupLayersPrecheck then
-          if xs.any (fun x => !s.isLayer x) then some .assertionError
+          if xs.any (fun x => !s.isLayer x) then some (.assertionError, [])
           else match par with
             | some p => if s.isGroup p then checkValid cfg s p xs else none
             | none => none
         else none
       match pre with
-      | some e => (s, .error e)
+      | some r => refuse s r
       | none =>
         let n := s.next
         let s1 := alloc s .group none BBox.zero
@@ -488,105 +588,21 @@ def opGroupLayers (cfg : Cfg) (s : State) (xs : List Id) (parent : Option Id) : 
 def opSetVisible (cfg : Cfg) (s : State) (x : Id) (v : Bool) : State × Out :=
   if !s.isLayer x then (s, .error .other)
   else
-    match invUp cfg s x with
-    | (s1, false) => (s1, .error .recursionError)
-    | (s1, true) =>
-      if cfg.invalidateBelow && s1.cont x then
-        match desc s1 x with
-        | .error e => (s1, .error e)
-        | .ok ds => ({ clearConts s1 ds with visible := upd s1.visible x v }, .none)
-      else ({ s1 with visible := upd s1.visible x v }, .none)
+    let s1 := invUp cfg s x
+    if cfg.invalidateBelow && s1.cont x then
+      match desc s1 x with
+      | .error e => (s1, .error e)
+      | .ok ds => ({ clearConts s1 ds with visible := upd s1.visible x v }, .none)
+    else ({ s1 with visible := upd s1.visible x v }, .none)
 
 /-- `left` / `top` setters (only plain layers have them: groups expose read-only properties) -/
 def opSetOffset (cfg : Cfg) (s : State) (x : Id) (horizontal : Bool) (v : Int) : State × Out :=
   if !(s.isLayer x && s.kind x == .leaf) then (s, .error .other)
   else
-    match invUp cfg s x with
-    | (s1, false) => (s1, .error .recursionError)
-    | (s1, true) =>
-      let b := s1.box x
-      let b' : BBox := if horizontal then ⟨v, b.t, v + (b.r - b.l), b.b⟩ else ⟨b.l, v, b.r, v + (b.b - b.t)⟩
-      ({ s1 with box := upd s1.box x b' }, .none)
-
-/-! ### Observations -/
-
-inductive Obs where
-  | bbox (x : Id)
-  | size (x : Id)
-  | repr (x : Id)
-  | descendants (g : Id)
-  | len (g : Id)
-  | index (g x : Id)
-  | count (g x : Id)
-  | getitem (g : Id) (i : Int)
-  | contains (g x : Id)
-  | isVisible (x : Id)
-  /-- an opaque read-only call (composite, numpy, topil …) that read `bbox` of these nodes -/
-  | touch (xs : List Id)
-  deriving DecidableEq, Repr
-
-/-- `GroupMixin.bbox` / `Artboard.bbox`: the raw cached value -/
-def readCache (s : State) (x : Id) : State × Except Err BBox :=
-  match s.cache x with
-  | some b => (s, .ok b)
-  | none =>
-    if s.kind x = .artboard then ({ s with cache := upd s.cache x (some (s.box x)) }, .ok (s.box x))
-    else
-      match extractBbox s x with
-      | .error e => (s, .error e)
-      | .ok b => ({ s with cache := upd s.cache x (some b) }, .ok b)
-
-/-- `x.bbox` -/
-def obsBbox (s : State) (x : Id) : State × Except Err BBox :=
-  if !s.cont x then (s, .ok (s.box x))
-  else
-    match readCache s x with
-    | (s1, .error e) => (s1, .error e)
-    | (s1, .ok b) => (s1, .ok (if s.kind x = .doc ∧ b = BBox.zero then s.box x else b))
-
-def touchAll : State → List Id → State × Out
-  | s, [] => (s, .none)
-  | s, x :: xs =>
-    match obsBbox s x with
-    | (s1, .error e) => (s1, .error e)
-    | (s1, .ok _) => touchAll s1 xs
-
-def observe (s : State) : Obs → State × Out
-  | .bbox x =>
-    match obsBbox s x with
-    | (s1, .error e) => (s1, .error e)
-    | (s1, .ok b) => (s1, .box b)
-  | .size x =>
-    if s.kind x = .doc then (s, .pair ((s.box x).r - (s.box x).l) ((s.box x).b - (s.box x).t))
-    else
-      match obsBbox s x with
-      | (s1, .error e) => (s1, .error e)
-      | (s1, .ok b) => (s1, .pair (b.r - b.l) (b.b - b.t))
-  | .repr x =>
-    if s.kind x = .doc then (s, .none)
-    else
-      match obsBbox s x with
-      | (s1, .error e) => (s1, .error e)
-      | (s1, .ok _) => (s1, .none)
-  | .descendants g =>
-    match desc s g with
-    | .error e => (s, .error e)
-    | .ok ds => (s, .ids ds)
-  | .len g => (s, .int (s.children g).length)
-  | .index g x => if x ∈ s.children g then (s, .int ((s.children g).idxOf x)) else (s, .error .valueError)
-  | .count g x => (s, .int ((s.children g).count x))
-  | .getitem g i =>
-    match normIdx (s.children g).length i with
-    | none => (s, .error .indexError)
-    | some j => match (s.children g)[j]? with
-      | none => (s, .error .indexError)
-      | some x => (s, .id x)
-  | .contains g x => (s, .bool (decide (x ∈ s.children g)))
-  | .isVisible x =>
-    match isVis s x with
-    | .error e => (s, .error e)
-    | .ok v => (s, .bool v)
-  | .touch xs => touchAll s xs
+    let s1 := invUp cfg s x
+    let b := s1.box x
+    let b' : BBox := if horizontal then ⟨v, b.t, v + (b.r - b.l), b.b⟩ else ⟨b.l, v, b.r, v + (b.b - b.t)⟩
+    ({ s1 with box := upd s1.box x b' }, .none)
 
 /-! ### The transition function -/
 
